@@ -40,6 +40,7 @@ class Check(BaseCheck):
         extract.gen_fem()
         extract.gen_misc()
         extract.gen_solver_glue()
+        extract.gen_shapedna()
         astx.gen_eigs()
 
     def problems(self, seed, n):
@@ -64,6 +65,22 @@ class Check(BaseCheck):
     def correspond(self, drv, stats):
         fails = []
         rng = gen.rng_for(self.seed, "c04c")
+        # relation monitors: the invariance / scaling relations of the property evaluated on a few problems of either kind, both lumpings
+        done = {}
+        for case in self.problems(self.seed + 3, 10 if self.quick else 60):
+            key = (case["kind"], bool(case["lump"]))
+            if done.get(key, 0) >= (1 if self.quick else 6) or len(case["v"]) > 80:
+                continue
+            done[key] = done.get(key, 0) + 1
+            gen.use(case)
+            try:
+                vio = self.oracle(case)
+            except Exception:  # noqa: BLE001
+                vio = None
+            stats.monitor("invariance / scaling relations evaluated on the implementation")
+            if vio is not None:
+                fails.append(core.Failure("correspondence", "ShapeDNA relations: " + vio.clause, vio.what, case))
+        gen.use(None)
         for case in self.problems(self.seed, 14 if self.quick else 600):
             kind, v, t, k = case["kind"], case["v"], case["t"], case["k"]
             gen.use(case)
